@@ -845,6 +845,8 @@ def stream_method(eng, o, name, args, kwargs, node):
     if name == "seek":
         off = _as_int(args[0])
         whence = args[1] if len(args) > 1 else kwargs.get("whence", 0)
+        if isinstance(whence, ExtRef):
+            whence = {"os.SEEK_SET": 0, "os.SEEK_CUR": 1, "os.SEEK_END": 2, "io.SEEK_SET": 0, "io.SEEK_CUR": 1, "io.SEEK_END": 2}.get(whence.dotted, whence)
         if whence == 0:
             if is_sym(off):
                 eng.safety(off >= 0, "ValueError", "seek-nonneg", node)
